@@ -442,6 +442,17 @@ def checkClose (c : CaseSt) : CloseVerdict := Id.run do
         | some it => if it > ie then v := { v with fails := v.fails ++ [s!"{c.event}: end-of-stream was delivered while sender {sid} was still alive (it was dropped later)"] }
         | none => v := { v with fails := v.fails ++ [s!"{c.event}: end-of-stream was delivered but sender {sid} was never dropped"] }
     | none => pure ()
+  -- a connection error is held back while other senders are present: a final receive error is delivered only after
+  -- every local sender (which no connection failure can touch) has been dropped
+  if c.kind == "mpsc" && !c.events.any (·.endsWith "panicked") then
+    match evIndex c (· == "@finalerr") with
+    | some ie =>
+      for (sid, lk) in c.links do
+        if lk != "local" then continue
+        match evIndex c (· == s!"txdrop {sid}") with
+        | some it => if it > ie then v := { v with fails := v.fails ++ [s!"{c.event}: a final receive error was delivered while the local sender {sid} was still alive (it was dropped later)"] }
+        | none => v := { v with fails := v.fails ++ [s!"{c.event}: a final receive error was delivered but the local sender {sid} was never dropped"] }
+    | none => pure ()
   -- `SendError::closed_reason()` of a refused send is the model's `errReason` of the recorded error
   if !once then
     for s in c.sends do
@@ -574,7 +585,9 @@ def stepLine (a : DAcc) (_n : Nat) (line : String) : IO DAcc := do
     return { a with cur := { c with recvs := c.recvs ++ [.value (getNat m "tag") (getNat m "halves") (getKV m "data")] } }
   | "recv" :: "err" :: rest =>
     let m := kvs rest
-    return { a with cur := { c with recvs := c.recvs ++ [.err (getKV m "kind") (getKV m "final" == "1")] } }
+    let fin := getKV m "final" == "1"
+    return { a with cur := { c with recvs := c.recvs ++ [.err (getKV m "kind") fin],
+                                    events := if fin then c.events ++ ["@finalerr"] else c.events } }
   | ["recv", "eos"] => return { a with cur := { c with recvs := c.recvs ++ [.eos], events := c.events ++ ["@eos"] } }
   | "state" :: i :: rest =>
     return { a with cur := { c with states := c.states ++ [(i.toNat?.getD 0, kvs rest)] } }
